@@ -52,3 +52,32 @@ func init() {
 		Outside: []string{"Success exactly at the deadline (the property does not order simultaneous events)", "real-time slack of the Go runtime"},
 	})
 }
+
+func init() {
+	reg(&Spec{
+		ID: "C18", Pkgs: []string{"transactions"}, TimedNative: true, LoopBound: 400, ValidateN: 8,
+		Quick: func() []Inst {
+			var out []Inst
+			for _, fa := range []int64{0, 1, 2} {
+				out = append(out, inst("transactions", "VH_C18_retry", 3, 1, fa), inst("transactions", "VH_C18_retry", 2, 2, fa))
+			}
+			out = append(out, inst("transactions", "VH_C18_timed", 3))
+			return out
+		},
+		Thor: func() []Inst {
+			var out []Inst
+			for _, fa := range []int64{0, 1, 2, 3} {
+				out = append(out, inst("transactions", "VH_C18_retry", 4, 1, fa), inst("transactions", "VH_C18_retry", 4, 2, fa), inst("transactions", "VH_C18_retry", 5, 0, fa))
+			}
+			out = append(out, inst("transactions", "VH_C18_timed", 4), inst("transactions", "VH_C18_timed", 5))
+			return out
+		},
+		Asserts: []string{"C18.finally_ran_once_at_done", "C18.done_stays_closed", "C18.err_stable_after_done", "C18.finally_exactly_once", "C18.no_retry_callback_after_done", "C18.no_panic"},
+		Reach:   []string{"C18.finished", "C18.event_after_done", "C18.retry_history_done", "C18.timed_history_done"},
+		Bounds: map[string]string{
+			"events":   "every sequence of n events (quick 2..3, thorough 4..5) over {Success, Fail, Proceed, next timer expiry, context cancellation} on a RetryTransaction (retryCount 0..2, symbolic retryDelay, retry callback failing on its k-th call, k = 0..3) / {Success, Fail, timer expiry, cancellation} on a TimedTransaction (symbolic timeout, 0 included), then all remaining timers fire",
+			"schedule": "cooperative tasks: an event runs to completion before the next one; timer callbacks run at their virtual instants",
+		},
+		Outside: []string{"pre-emption inside Success/Fail/timeout (unsynchronised access to the timer field: data races, the timer firing before the assignment in NewTimedTransaction with a zero timeout): needs instruction-level interleaving, see DESIGN.md", "client/sleep_transaction.go timers (exercised through C28/C33/C26 only)"},
+	})
+}
